@@ -20,6 +20,11 @@
     ascending list with the same members (`sortedSet_pairwise`, `mem_sortedSet`);
   * `for a, b in <pairs>`: the list of pairs is the list of its second components (`sizes`), a
     first component is the index of its pair.
+  Third batch (methods of an object whose state is one list of integers — `MonitoredList`):
+  * `pyInsert xs i v` is `xs.insert(i, v)` (a negative `i` counts from the end; what is still out
+    of range is clamped to the front / the end), `setIdx xs i v` is `xs[i] = v` (`none` =
+    IndexError; negative `i` counts from the end), `xs.clear()` is `[]`;
+  * an optional integer (`return item` / `return None`) is an `Option Int`.
 -/
 namespace Torf.Loop
 
@@ -116,5 +121,51 @@ theorem mem_sortedSet (xs : List Int) (y : Int) : y ∈ sortedSet xs ↔ y ∈ x
   | cons x xs ih =>
     show y ∈ insertAsc x (sortedSet xs) ↔ _
     rw [mem_insertAsc, ih]; simp
+
+/-- Python's `xs.insert(i, v)`: `i < 0` counts from the end (`i + len`), then the position is
+    clamped into `0 … len` (CPython `ins1`) -/
+def pyInsert (xs : List Int) (i v : Int) : List Int :=
+  let n : Int := xs.length
+  let j : Int := if i < 0 then (if i + n < 0 then 0 else i + n) else (if i > n then n else i)
+  xs.take j.toNat ++ v :: xs.drop j.toNat
+
+/-- Python's `xs[i] = v`; `none` is IndexError (the same index rule as `getIdx`) -/
+def setIdx (xs : List Int) (i v : Int) : Option (List Int) :=
+  if i ≥ 0 then (if i.toNat < xs.length then some (xs.set i.toNat v) else none)
+  else if (-i).toNat ≤ xs.length then some (xs.set (xs.length - (-i).toNat) v) else none
+
+/- the values below are what CPython 3.12 prints for the same calls -/
+example : pyInsert [10, 20, 30] 0 7 = [7, 10, 20, 30] := by decide
+example : pyInsert [10, 20, 30] 1 7 = [10, 7, 20, 30] := by decide
+example : pyInsert [10, 20, 30] 3 7 = [10, 20, 30, 7] := by decide
+example : pyInsert [10, 20, 30] 4 7 = [10, 20, 30, 7] := by decide
+example : pyInsert [10, 20, 30] 99 7 = [10, 20, 30, 7] := by decide
+example : pyInsert [10, 20, 30] (-1) 7 = [10, 20, 7, 30] := by decide
+example : pyInsert [10, 20, 30] (-2) 7 = [10, 7, 20, 30] := by decide
+example : pyInsert [10, 20, 30] (-3) 7 = [7, 10, 20, 30] := by decide
+example : pyInsert [10, 20, 30] (-4) 7 = [7, 10, 20, 30] := by decide
+example : pyInsert [10, 20, 30] (-99) 7 = [7, 10, 20, 30] := by decide
+example : pyInsert [] 0 7 = [7] := by decide
+example : pyInsert [] 5 7 = [7] := by decide
+example : pyInsert [] (-5) 7 = [7] := by decide
+example : setIdx [10, 20, 30] 0 7 = some [7, 20, 30] := by decide
+example : setIdx [10, 20, 30] 2 7 = some [10, 20, 7] := by decide
+example : setIdx [10, 20, 30] 3 7 = none := by decide
+example : setIdx [10, 20, 30] (-1) 7 = some [10, 20, 7] := by decide
+example : setIdx [10, 20, 30] (-3) 7 = some [7, 20, 30] := by decide
+example : setIdx [10, 20, 30] (-4) 7 = none := by decide
+example : setIdx [] 0 7 = none := by decide
+example : setIdx [] (-1) 7 = none := by decide
+
+/-- `setIdx` succeeds exactly where `getIdx` does -/
+theorem setIdx_isSome (xs : List Int) (i v : Int) : (setIdx xs i v).isSome = (getIdx xs i).isSome := by
+  unfold setIdx getIdx
+  by_cases h : i ≥ 0
+  · by_cases h2 : i.toNat < xs.length <;> simp [h, h2]
+  · by_cases h2 : (-i).toNat ≤ xs.length
+    · simp only [h, h2, if_true, if_false, Option.isSome_some]
+      have : xs.length - (-i).toNat < xs.length := by omega
+      simp [this]
+    · simp [h, h2]
 
 end Torf.Loop
